@@ -10,6 +10,12 @@ impl VarLabel {
 //%% @spec
         ensures r == self.0,
 //%% end
+
+//%% extract src/repr/var_label.rs :: impl VarLabel :: fn new_usize
+//%% @ret r
+//%% @spec
+        ensures r.0 == v,
+//%% end
 }
 
 //%% extract src/repr/var_label.rs :: - :: struct VarSet
@@ -19,6 +25,18 @@ impl VarLabel {
 impl VarSet {
     /// the set of labels
     pub open spec fn has(self, v: VarLabel) -> bool { self.b@.contains(v.0 as usize) }
+
+//%% extract src/repr/var_label.rs :: impl VarSet :: fn new
+//%% @ret r
+//%% @spec
+        ensures forall|v: VarLabel| !r.has(v),
+//%% end
+
+//%% extract src/repr/var_label.rs :: impl VarSet :: fn new_with_num_vars
+//%% @ret r
+//%% @spec
+        ensures forall|v: VarLabel| !r.has(v),
+//%% end
 
 //%% extract src/repr/var_label.rs :: impl VarSet :: fn insert
 //%% @spec
@@ -40,6 +58,16 @@ impl VarSet {
 //%% extract src/repr/model.rs :: - :: struct PartialModel
 //%% end
 
+/// the value the LAST literal on x in the list gives x (None if the list has no literal on x)
+pub open spec fn last_assign(s: Seq<Literal>, x: VarLabel) -> Option<bool>
+    decreases s.len()
+{
+    if s.len() == 0 { None } else if s.last().lbl == x { Some(s.last().pol) } else { last_assign(s.drop_last(), x) }
+}
+
+/// the value two variable sets give a variable (PartialModel::val on the sets before they are put into the struct)
+pub open spec fn val2(t: VarSet, f: VarSet, x: VarLabel) -> Option<bool> { if t.has(x) { Some(true) } else if f.has(x) { Some(false) } else { None } }
+
 impl PartialModel {
     /// the value the model gives a variable (None if unset)
     pub open spec fn val(self, x: VarLabel) -> Option<bool> {
@@ -49,6 +77,75 @@ impl PartialModel {
     pub open spec fn wf(self) -> bool {
         forall|x: VarLabel| !(#[trigger] self.true_assignments.has(x) && self.false_assignments.has(x))
     }
+
+//%% extract src/repr/model.rs :: impl PartialModel :: fn new
+//%% @ret r
+//%% @spec
+        ensures r.wf(), forall|x: VarLabel| r.val(x) is None,
+//%% end
+
+// R-enumerate: `for (i, assignment) in assignments.iter().enumerate() {` -> `for i in 0..assignments.len() { let assignment = &assignments[i];`
+//%% extract src/repr/model.rs :: impl PartialModel :: fn from_assignments
+//%% @ret r
+//%% @rewrite 1 /for \(i, assignment\) in assignments\.iter\(\)\.enumerate\(\) \{/ => for i in 0..assignments.len() {\n            let assignment = &assignments[i];
+//%% @spec
+        ensures
+            r.wf(),
+            // variable i gets exactly the i-th entry; variables beyond the slice are unset
+            forall|x: VarLabel| #![trigger r.true_assignments.has(x)] #![trigger r.false_assignments.has(x)] x.0 < assignments.len() ==> r.val(x) == assignments@[x.0 as int],
+            forall|x: VarLabel| #![trigger r.true_assignments.has(x)] #![trigger r.false_assignments.has(x)] x.0 >= assignments.len() ==> r.val(x) is None,
+//%% @loop 1 /^for i in 0\.\.assignments\.len\(\)$/
+            invariant
+                forall|x: VarLabel| #![trigger true_v.has(x)] #![trigger false_v.has(x)] !(true_v.has(x) && false_v.has(x)),
+                forall|x: VarLabel| #![trigger true_v.has(x)] #![trigger false_v.has(x)] x.0 < i ==> val2(true_v, false_v, x) == assignments@[x.0 as int],
+                forall|x: VarLabel| #![trigger true_v.has(x)] #![trigger false_v.has(x)] x.0 >= i ==> !true_v.has(x) && !false_v.has(x),
+//%% end
+
+// R-map-collect: `assignments.iter().map(|x| Some(*x)).collect::<Vec<_>>()` -> push the closure's value for every element, in order
+//%% extract src/repr/model.rs :: impl PartialModel :: fn from_total_model
+//%% @ret r
+//%% @rewrite 1 /Self::from_assignments\(&assignments\.iter\(\)\.map\(\|x\| (.*?)\)\.collect::<Vec<_>>\(\)\)/ => { let mut mc__out: Vec<Option<bool>> = Vec::new(); for x in mc__it: assignments.iter() { let mc__x = \1; mc__out.push(mc__x); } Self::from_assignments(&mc__out) }
+//%% @spec
+        ensures
+            r.wf(),
+            forall|x: VarLabel| #![trigger r.true_assignments.has(x)] #![trigger r.false_assignments.has(x)] x.0 < assignments.len() ==> r.val(x) == Some(assignments@[x.0 as int]),
+            forall|x: VarLabel| #![trigger r.true_assignments.has(x)] #![trigger r.false_assignments.has(x)] x.0 >= assignments.len() ==> r.val(x) is None,
+//%% @loop 1 /^for x in mc__it: assignments\.iter\(\)$/
+            invariant
+                mc__out@.len() == mc__it.index@,
+                forall|k: int| 0 <= k < mc__out@.len() ==> #[trigger] mc__out@[k] == Some(assignments@[k]),
+//%% end
+
+//%% extract src/repr/model.rs :: impl PartialModel :: fn from_litvec
+//%% @attr #[verifier::loop_isolation(false)]
+//%% @ret r
+//%% @rewrite 1 /for assgn in assignments \{/ => for assgn in it: assignments.iter() {
+//%% @spec
+        requires forall|j: int| 0 <= j < assignments.len() ==> (#[trigger] assignments@[j]).lbl.0 < num_vars,
+        ensures
+            r.wf(),
+            // every variable gets the value of the last literal on it
+            forall|x: VarLabel| #![trigger r.true_assignments.has(x)] #![trigger r.false_assignments.has(x)] x.0 < num_vars ==> r.val(x) == last_assign(assignments@, x),
+            forall|x: VarLabel| #![trigger r.true_assignments.has(x)] #![trigger r.false_assignments.has(x)] x.0 >= num_vars ==> r.val(x) is None,
+//%% @entry
+        let ghost a0 = assignments@;
+        proof {
+            assert forall|s: Seq<Literal>, i: int, j: int| #![trigger s.take(i), s.take(j)] 0 <= i < s.len() && j == i + 1 implies s.take(j).drop_last() == s.take(i) && s.take(j).last() == s[i] by {
+                assert(s.take(j).drop_last() =~= s.take(i));
+            }
+            assert(a0.take(a0.len() as int) =~= a0);
+        }
+//%% @loop 1 /^for assgn in it: assignments\.iter\(\)$/
+            invariant
+                init_assgn@.len() == num_vars,
+                forall|k: int| 0 <= k < num_vars ==> #[trigger] init_assgn@[k] == last_assign(a0.take(it.index@ as int), VarLabel(k as u64)),
+//%% @loopbody 1
+            proof {
+                let i = it.index@ as int;
+                assert(*assgn == a0[i]);
+                assert(a0.take(i + 1).drop_last() == a0.take(i) && a0.take(i + 1).last() == a0[i]);
+            }
+//%% end
 
 //%% extract src/repr/model.rs :: impl PartialModel :: fn unset
 //%% @spec
